@@ -83,12 +83,13 @@ theorem C11_lazy_monitor_full_counterexample : ¬ C11_lazy_monitor_full := by
 
 /-- C11 (laziness) in the form of the monitor, at full strength for every parameter the monitor is ever used with:
     when every task name of the input is below `nTasks` (`Bounded`, decidable; the harness passes the number of
-    tasks), `monLazy` holds on the observable trace of every reachable state of the serial and of the parallel
+    tasks) and no calc task delivers values after a failed execution (`NoFailDeliver`: `calcResFail` empty, the
+    default; `monLazy` does not know those deliveries yet), `monLazy` holds on the observable trace of every reachable state of the serial and of the parallel
     systems — every graph (cyclic ones included), every oracle, every set-iteration order and interleaving.  So no
     task is touched unless it is selected, a (static or delivered) task_dep / calc_dep of a justified task, or a
     setup-task of a justified task that had been chosen for execution (`get_status` reported, no terminal report,
     not ignored, status `run`, all first-stage dependencies finished) when the setup-task was first touched. -/
-theorem C11_lazy_monitor (inp : RunInput) (s : Sys) (hr : Reach inp s ∨ PReach inp s) (nTasks : Nat)
+theorem C11_lazy_monitor (inp : RunInput) [NoFailDeliver inp] (s : Sys) (hr : Reach inp s ∨ PReach inp s) (nTasks : Nat)
     (hb : Bounded inp nTasks) : monLazy inp nTasks (trace inp s) = true := by
   by_cases hser : inp.runner = .serial
   · rcases hr with hr | hr
@@ -97,6 +98,8 @@ theorem C11_lazy_monitor (inp : RunInput) (s : Sys) (hr : Reach inp s ∨ PReach
   · rcases hr with hr | hr
     · rw [reach_mismatch hser hr]; exact monLazy_init inp nTasks
     · exact monLazy_of_lm hb.p (preach_ctx hser hr) (preach_lm hb.p hser hr)
+
+instance : NoFailDeliver exChain := ⟨fun _ => rfl⟩
 
 /-- the hypothesis is met by the chain with the right parameter, and there the monitor says yes on the same run -/
 example : Bounded exChain 4 ∧
